@@ -46,7 +46,7 @@ def _pdu_bounds(c, turn):
 def cases(tier, seed):
     corp = _corpus()
     rnd = random.Random('c03/%d' % seed)
-    names = sorted(corp)
+    names = sorted(n_ for n_ in corp if not corp[n_].get('sparse'))   # (long turns: C13 only)
     # 1. every single cut of every turn (both tiers)
     for name in names:
         for t, data in enumerate(_turns(corp[name])):
